@@ -95,6 +95,18 @@ func hasFile(fsys Files, name string) bool { _, ok := fsys[name]; return ok }
 
 // Open: an invalid name never opens; a present file opens as a file positioned
 // at 0; "." opens as a directory; whatever is returned without error is non-nil.
+// specInDir: the file named k lies below the directory name, i.e. k begins
+// with name followed by a slash. Open must find the directory whenever such a
+// file exists - also when all of them lie in sub-directories of it.
+func specInDir(k, name string) bool {
+	return len(k) > len(name) && k[:len(name)] == name && k[len(name)] == '/'
+}
+
+// rangeKeyStr(n, j) is the j-th key visited by the n-th range loop of the
+// function, a range over a map that the loop does not modify: the keys visited
+// are exactly the keys of the map (ghost function kept by the verifier).
+func rangeKeyStr(n, j int) string { return "" }
+
 //@ func Files.Open
 //@   props C23
 //@   ensures !fs.ValidPath(name) ==> result == nil && result1 != nil
@@ -102,6 +114,9 @@ func hasFile(fsys Files, name string) bool { _, ok := fsys[name]; return ok }
 //@   ensures fs.ValidPath(name) && name != "." && hasFile(fsys, name) ==> result1 == nil && result != nil
 //@   ensures result1 == nil ==> result != nil
 //@   ensures result1 != nil ==> result == nil
+//@   ensures fs.ValidPath(name) && name != "." && result1 != nil ==> !hasFile(fsys, name) && forall(0, len(fsys), func(j int) bool { return !specInDir(rangeKeyStr(0, j), name) })
+//@   loop 0
+//@     invariant forall(0, rangeIndex(0), func(j int) bool { return !specInDir(rangeKeyStr(0, j), name) })
 
 // ReadDir paging: with n > 0 at most n entries, at least one unless io.EOF,
 // and the cursor advances by the number of entries returned; with n <= 0 no error.
